@@ -15,13 +15,24 @@
                      to_canonical p = to_canonical j   (and equal encodings)
       C19_inline_closed:  ... valid_raw j = true, every named type defined exactly once, at its first use
       C19_ordered: load_ordered rp names has the same canonical form for every dependencies-first names
-    What is missing for them: a characterisation of the parser's FAILURES (which reference raises
-    UnknownType first), of _inject_schema's position (the same reference) and the stability of
-    re-parsing an injected, already parsed sub-schema (C12_reparse).  Proved below: the first-try
-    case, the error path, that every result is a genuine parse result, and evaluated instances. *)
+    Of the three pieces that were missing, two are theorems now:
+      - the parser's FAILURES: C19_first_unknown (UnknownType carries the first reference, in
+        document order, that is neither primitive nor in the dictionary at that point; everything
+        before it was accepted; the dictionary of the failure extends the caller's and lacks the name);
+      - what inlining the loaded types into the parse gives: props/C12.v C12_piecewise(_core)
+        (inline over the table of separately parsed files = the parser's output of the schema with the
+        files' contents written at their first use) and props/C13.v C13_same_encoding (equal canonical
+        JSON => same typed values / encoding);
+    what is still missing for C19_equiv is the composition over the loader's retry loop: that
+    _inject_schema replaces exactly the reference C19_first_unknown names (it also rewrites the
+    references before it to their full names), that re-parsing the schema with the already PARSED
+    sub-schema injected is accepted (the parser accepting its own output, C12_reparse_partial) and the
+    induction over the nested loads (a sub-load sees the caller's dictionary as it was BEFORE the
+    failed attempt).  Proved below: the first-try case, the error path with the name that is
+    reported, that every result is a genuine parse result, and evaluated instances. *)
 From Coq Require Import String.
 From FA Require Import model.Base model.Json model.Parse model.SchemaSpec model.Inline model.Canon model.Repo
-     proofs.JsonProofs proofs.ParseProofs proofs.RepoProofs.
+     proofs.JsonProofs proofs.ParseProofs proofs.RepoProofs proofs.UnknownProofs.
 Open Scope string_scope.
 
 (** the loader's parse with _write_hint=True is parse_schema *)
@@ -58,6 +69,40 @@ Theorem C19_missing_nested : forall f rp schema tbl wh inj q junk raw q' junk',
   pwr (S f) rp schema tbl wh inj = Some (PErrUnknown q' junk').
 Proof. exact pwr_missing_nested. Qed.
 Print Assumptions C19_missing_nested.
+
+(** which name: the parser's UnknownType failures, in general.  [first_unknown f j ns st q junk]
+    (proofs/UnknownProofs.v) is the path to the failing node: a reference that is not primitive and
+    whose full name is not a key of the dictionary there (or a dict whose "type" names nothing,
+    reported as "<dict>"); in a union / a record every member / field before it has been parsed
+    successfully ([members_ok] / [fields_ok]: the accepted prefix), an array / map fails in its
+    items / values *)
+Theorem C19_first_unknown : forall f j ns wh st d q junk,
+  parse_rec f j ns wh st d = PErrUnknown q junk -> first_unknown f j ns st q junk.
+Proof. exact parse_rec_unknown. Qed.
+Print Assumptions C19_first_unknown.
+
+Theorem C19_first_unknown_file : forall wh f kv tbl q junk,
+  jhas "__fastavro_parsed" kv = false ->
+  parse_schema_g wh (S f) (JObj kv) tbl = PErrUnknown q junk ->
+  first_unknown f (JObj kv) "" (mkst [] tbl) q junk.
+Proof. exact parse_schema_unknown. Qed.
+Print Assumptions C19_first_unknown_file.
+
+(** the dictionary the failure leaves behind contains the caller's entries, and the reported name is
+    not among its keys (so the loader's next step, loading that name, is never redundant) *)
+Theorem C19_unknown_table : forall f j ns st q junk,
+  first_unknown f j ns st q junk ->
+  (forall n, jhas n (st_tbl st) = true -> jhas n junk = true) /\ (jhas q junk = false \/ q = "<dict>").
+Proof. exact first_unknown_table. Qed.
+Print Assumptions C19_unknown_table.
+
+(* a reference that is not in the dictionary is reported, whatever the default *)
+Example C19_first_unknown_instance :
+  parse_schema_g true 5 (JObj [("type", JStr "record"); ("name", JStr "A");
+      ("fields", JArr [JObj [("name", JStr "x"); ("type", JStr "int")];
+                       JObj [("name", JStr "b"); ("type", JArr [JStr "null"; JStr "B"])];
+                       JObj [("name", JStr "c"); ("type", JStr "C")]])]) [] = PErrUnknown "B" [("A", JObj [("type", JStr "record")])].
+Proof. vm_compute. reflexivity. Qed.
 
 Theorem C19_missing_top : forall rp name, jget name rp = None -> load rp name = None.
 Proof. exact load_missing_top. Qed.
